@@ -1295,3 +1295,20 @@ def lex_less(P, new, old):
     for i in range(len(new) - 1, -1, -1):
         goal = z3.Or(less(new[i], old[i]), z3.And(eq(new[i], old[i]), goal)) if i < len(new) - 1 else less(new[i], old[i])
     return simp(goal)
+
+
+def apply_alias(args: dict, dst: str, src: str):
+    """counterexample JSON: make the input field `dst` refer to the object `src` (contract `aliases`)"""
+    def walk(path):
+        parts = path.split('.')
+        v = args[parts[0]]
+        for p in parts[1:]:
+            v = v['fields'][p]
+        return v
+    target = walk(src)
+    if not isinstance(target, dict) or 'id' not in target:
+        return
+    base, _, fld = dst.rpartition('.')
+    holder = walk(base)
+    if isinstance(holder, dict) and 'fields' in holder:
+        holder['fields'][fld] = {'$ref': target['id']}
